@@ -152,6 +152,9 @@ type spec struct {
 	// also at blocking points, counts against the bound. Used where free expansion of the choices at
 	// blocking points is out of reach (three processes with three concurrent operators).
 	boundAll bool
+	// lateConsumer: the reader of Events() starts reading only when every other thread is parked (all exits
+	// have happened and wait to be published)
+	lateConsumer bool
 }
 
 func pathOf(name string) string { return "/sim/" + name }
@@ -392,6 +395,9 @@ func (sp *spec) body() func() {
 		sup := supervisor.NewLocalSupervisor()
 		ch, _ := sup.Events(context.Background(), &model.EventsRequest{Domain: domain})
 		sched.Go("consumer", func() {
+			if sp.lateConsumer {
+				sched.WaitQuiet()
+			}
 			for {
 				r.onEvent(vchan.Recv(ch))
 			}
